@@ -14,7 +14,7 @@ CONSTANTS Ns,          \* signal lengths
           SigVals,     \* sample values
           Kernels,     \* set of kernels: Seq of <<d, g>> taps (d in samples, may be negative)
           Bs,          \* second signals (the first ranges over all of [1..N -> SigVals])
-          Variants,    \* subset of {"vec", "scalar", "posonly"} x BOOLEAN explored
+          Variants,    \* subset of {"vec", "scalar", "narrow", "posonly"} x BOOLEAN explored
           K,           \* the scalar of the linear combination
           MaxFilters
 
@@ -40,7 +40,7 @@ Init == /\ N \in Ns
         /\ c = [n \in 1..N |-> a[n] + K * b[n]]
         /\ nf = 0 /\ last = [op |-> "Init"]
 
-(* variant: "vec" vectorised response, "scalar" scalar-only function, "posonly" defined for f >= 0 only (needs force_real) *)
+(* variant: "vec" vectorised response, "scalar" scalar-only function, "narrow" scalar-only returning int / float / complex as the value allows, "posonly" defined for f >= 0 only (needs force_real) *)
 Apply(h, variant, forceReal) ==
     /\ nf < MaxFilters
     /\ variant = "posonly" => forceReal
